@@ -210,12 +210,27 @@ class Job:
                 cmd += ['--apply-loop-contracts']
             cmd += [gb, base + '.i.gb']
             rc, out, _ = sh(cmd, timeout=300)
+            tries = 0
+            while rc != 0 and tries < 40:
+                mm = re.search(r"Function to replace '([^']+)' not found", out)
+                if not mm:
+                    break
+                # a stub that the compiled program never references (unused static inline helper): nothing to replace
+                self.replace = [r for r in self.replace if r != mm.group(1)]
+                cmd = ['goto-instrument', '--dfcc', self.entry] + (['--enforce-contract', self.enforce] if self.enforce else [])
+                for r in self.replace:
+                    cmd += ['--replace-call-with-contract', r]
+                if self.loops:
+                    cmd += ['--apply-loop-contracts']
+                cmd += [gb, base + '.i.gb']
+                rc, out, _ = sh(cmd, timeout=300)
+                tries += 1
             if rc != 0:
                 res['reason'] = 'goto-instrument failed: ' + out[-3000:]
                 res['wall'] = time.time() - t0
                 return res
             gb = base + '.i.gb'
-        cmd = ['cbmc'] + CBMC_FLAGS + self.extra_flags
+        cmd = ['cbmc'] + [f for f in CBMC_FLAGS if f not in getattr(self, 'drop_flags', ())] + self.extra_flags
         if self.unwind is not None:
             cmd += ['--unwind', str(self.unwind), '--unwinding-assertions']
         cmd += [gb]
@@ -336,9 +351,8 @@ def build_contract_job(unit, fs):
             decls.append(unit.fn_decl(cs))
             replace.append(c)
     stub_contracts = getattr(m, 'STUB_CONTRACTS', set())
-    for c in sorted(seen | fl.callees):
-        if c in stub_contracts:
-            replace.append(c)
+    for c in sorted(stub_contracts):
+        replace.append(c)        # filtered below to the stubs the emitted text reaches
     parts += decls
     # forward declarations of all extracted functions are needed for wrappers
     parts.append('/* ---- function under contract ---- */')
@@ -403,6 +417,11 @@ def build_contract_job(unit, fs):
     parts[parts.index('@@MIRROR_GLOBALS@@')] = '\n'.join(mir_globals)
     ifn = parts.index('@@FNDEF@@')
     parts[ifn] = unit.fn_def(fs_m)
+    # only callees that occur in the emitted text can be replaced by their contracts (names met inside dropped
+    # expressions - exception messages - are not in the program)
+    body_text = parts[ifn] + '\n'.join(defs_inline) + '\n'.join(w for w in unit.make_wrappers()) + getattr(m, 'PRELUDE', '')
+    replace = [r for r in replace if re.search(r'\b%s\s*\(' % re.escape(r), parts[ifn] + '\n'.join(defs_inline))
+               or (r in stub_contracts and re.search(r'\b%s\s*\(' % re.escape(r), _inline_prelude_calls(m, parts[ifn] + '\n'.join(defs_inline))))]
     h = h[len(mir_globals):]
     ctext = '\n'.join(parts[:1] + protos_for_wrappers(unit, fs, replace, inline) + parts[1:] + h)
     cex_ctext = None
@@ -411,13 +430,35 @@ def build_contract_job(unit, fs):
         fs_c = dict(fs_m); fs_c['requires'] = fs_m['requires'] + list(fs['cex_requires'])
         parts2 = list(parts); parts2[ifn] = unit.fn_def(fs_c)
         cex_ctext = '\n'.join(parts2[:1] + protos_for_wrappers(unit, fs, replace, inline) + parts2[1:] + h)
-    return _with_cex(cex_ctext, Job(unit, 'p_' + fs['cname'], 'contract', ctext, 'h_' + fs['cname'], enforce=fs['cname'],
+    return _drop(_with_cex(cex_ctext, Job(unit, 'p_' + fs['cname'], 'contract', ctext, 'h_' + fs['cname'], enforce=fs['cname'],
                replace=sorted(set(replace)), loops=bool(fs.get('loops')), extra_flags=fs.get('cbmc_flags', ()),
-               meta=dict(function=fs['qname'], cname=fs['cname']), timeout=fs.get('timeout'), split=fs.get('split', False)))
+               meta=dict(function=fs['qname'], cname=fs['cname']), timeout=fs.get('timeout'), split=fs.get('split', False))), fs)
 
 def _with_cex(cex_ctext, job):
     job.cex_ctext = cex_ctext
     return job
+
+def _drop(job, fs):
+    job.drop_flags = tuple(fs.get('drop_flags', ()))
+    return job
+
+def _inline_prelude_calls(m, text):
+    """text of the static inline / macro helpers of the unit's PRELUDE and of the stub headers that the function text uses:
+    a contract stub reached only through such a helper (e.g. Str__find -> Str__find_n) must still be replaced"""
+    out = []
+    srcs = [getattr(m, 'PRELUDE', ''), getattr(m, 'PRE_STRUCTS', '')]
+    for fn in os.listdir(STUBS):
+        srcs.append(open(os.path.join(STUBS, fn)).read())
+    allsrc = '\n'.join(srcs)
+    seen = set(); todo = set(re.findall(r'\b([A-Za-z_][A-Za-z0-9_]*)\s*\(', text))
+    while todo:
+        f = todo.pop()
+        if f in seen: continue
+        seen.add(f)
+        for mm in re.finditer(r'(?:static inline[^\n{]*\b%s\s*\([^{;]*\)\s*\{[^\n]*|#define\s+%s\([^\n]*)' % (re.escape(f), re.escape(f)), allsrc):
+            out.append(mm.group(0))
+            todo |= set(re.findall(r'\b([A-Za-z_][A-Za-z0-9_]*)\s*\(', mm.group(0))) - seen
+    return '\n'.join(out)
 
 def protos_for_wrappers(unit, fs, replace, inline):
     """by-value constructor wrappers used by this function (defined after the constructor's contract declaration)"""
